@@ -31,7 +31,7 @@ class file_monitoring_lru_cache:
     that may change.
     """
     def __init__(self, maxsize=100):
-        self.lru_cache = functools.lru_cache(maxsize=maxsize)
+        self.lru_cache = functools.lru_cache(maxsize=maxsize, typed=True)
         self.cached_wrapper = None
 
     def __call__(self, func):
@@ -46,8 +46,8 @@ class file_monitoring_lru_cache:
             if full_path.exists():
                 path_stat = full_path.stat()
                 return cached_wrapper(
-                    path=full_path,
-                    path_stats=(path_stat.st_mtime_ns, path_stat.st_size),
+                    full_path,
+                    (path_stat.st_mtime_ns, path_stat.st_size),
                     *args,
                     **kwargs)
             else:
